@@ -186,7 +186,9 @@ Qed.
 
 Section Conv.
   Variable conv : kind -> string -> string.
-  Hypothesis conv_idem : forall k s, conv k (conv k s) = conv k s.
+  (* case conversion is NOT idempotent in general (heck: aB -> AB -> Ab); the collision rule only needs it on
+     the names of the scope at hand *)
+  Definition idem_on (x : sib) : Prop := conv (s_kind x) (conv (s_kind x) (s_orig x)) = conv (s_kind x) (s_orig x).
 
   Lemma two_same_key_collide cc scope x y :
     In x scope -> In y scope -> x <> y -> key conv cc x = key conv cc y -> collides conv cc scope x = true.
@@ -211,10 +213,11 @@ Section Conv.
     In x scope -> In y scope ->
     s_tag x = None -> s_tag y = None -> s_kind x = s_kind y ->
     s_orig x <> s_orig y ->
+    idem_on x -> idem_on y ->
     escape_ok [rust_name conv cc scope x; rust_name conv cc scope y] = true ->
     emitted conv cc scope x <> emitted conv cc scope y.
   Proof.
-    intros Hx Hy Tx Ty Kd No E Em.
+    intros Hx Hy Tx Ty Kd No Ix Iy E Em. unfold idem_on in Ix, Iy.
     assert (Nxy : x <> y) by (intros ->; now apply No).
     assert (R : rust_name conv cc scope x = rust_name conv cc scope y).
     { unfold emitted in Em. rewrite <- Kd in Em. destruct (is_const_kind (s_kind x)); [exact Em|].
@@ -231,10 +234,10 @@ Section Conv.
     - now apply No.
     - (* x fell back to its original spelling, which is y's converted name *)
       assert (key conv true x = key conv true y).
-      { apply KE. rewrite N0x, N0y, R, Kd. now rewrite conv_idem. }
+      { apply KE. rewrite N0x, N0y, R, Kd. now rewrite Iy. }
       pose proof (two_same_key_collide true scope y x Hy Hx (not_eq_sym Nxy) (eq_sym H)). congruence.
     - assert (key conv true x = key conv true y).
-      { apply KE. rewrite N0x, N0y, <- R, <- Kd. now rewrite conv_idem. }
+      { apply KE. rewrite N0x, N0y, <- R, <- Kd. now rewrite Ix. }
       pose proof (two_same_key_collide true scope x y Hx Hy Nxy H). congruence.
     - assert (key conv true x = key conv true y) by (apply KE; rewrite N0x, N0y; now rewrite R).
       pose proof (two_same_key_collide true scope x y Hx Hy Nxy H). congruence.
@@ -255,13 +258,14 @@ Section Conv.
 
   Lemma names_injective cc k scope :
     (forall x, In x scope -> s_kind x = k /\ s_tag x = None) ->
+    (forall x, In x scope -> idem_on x) ->
     NoDup (map s_orig scope) ->
     escape_ok (map (rust_name conv cc scope) scope) = true ->
     NoDup (map (emitted conv cc scope) scope).
   Proof.
-    intros U N E. apply NoDup_map_pairwise with (g := s_orig); [assumption|].
+    intros U I N E. apply NoDup_map_pairwise with (g := s_orig); [assumption|].
     intros x y Hx Hy D. destruct (U x Hx) as [Kx Tx]. destruct (U y Hy) as [Ky Ty].
-    apply names_injective_pair; try assumption; [congruence|].
+    apply names_injective_pair; try assumption; [congruence|now apply I|now apply I|].
     eapply escape_ok_incl; [|exact E].
     intros a [H|[H|[]]]; subst; now apply in_map.
   Qed.
@@ -287,6 +291,24 @@ Proof.
         rewrite C1. destruct C2 as [C2|C2]; rewrite C2; reflexivity.
       - reflexivity. }
     rewrite E. intros N. inversion N as [|? ? H _]; subst. apply H. now left.
+Qed.
+
+(* ---- the idempotence condition is necessary: heck's upper camel case maps aB -> AB -> Ab (finding F-14r) ------ *)
+Definition conv_heck_ab (_ : kind) (s : string) : string :=
+  if s =? "aB" then "AB" else if s =? "AB" then "Ab" else s.
+Definition ab_scope : list sib := [mkSib KStruct "AB" None; mkSib KStruct "Ab" None; mkSib KStruct "aB" None].
+
+Lemma names_not_idempotent_refuted :
+  NoDup (map s_orig ab_scope) /\
+  (forall x, In x ab_scope -> s_kind x = KStruct /\ s_tag x = None) /\
+  escape_ok (map (rust_name conv_heck_ab true ab_scope) ab_scope) = true /\
+  map (emitted conv_heck_ab true ab_scope) ab_scope = ["AB"; "Ab"; "AB"].
+Proof.
+  split; [|split; [|split]].
+  - cbn. repeat constructor; cbn; intuition discriminate.
+  - intros x [H|[H|[H|[]]]]; subst; split; reflexivity.
+  - vm_compute. reflexivity.
+  - vm_compute. reflexivity.
 Qed.
 
 (* ---- constants bypass Display: a const called like a keyword is pasted as it is (finding F-14n) -------- *)
@@ -324,12 +346,14 @@ Proof. unfold conv_toy. induction s as [|c r IH]; cbn; [reflexivity|]. now rewri
 Example names_injective_nonvacuous :
   let scope := [mkSib KField "fooBar" None; mkSib KField "foobar" None; mkSib KField "type" None; mkSib KField "x" None] in
   (forall x, In x scope -> s_kind x = KField /\ s_tag x = None) /\
+  (forall x, In x scope -> idem_on conv_toy x) /\
   NoDup (map s_orig scope) /\
   escape_ok (map (rust_name conv_toy true scope) scope) = true /\
   map (emitted conv_toy true scope) scope = ["fooBar"; "foobar"; "r#type"; "x"].
 Proof.
-  cbn zeta. split; [|split; [|split]].
+  cbn zeta. split; [|split; [|split; [|split]]].
   - intros x [H|[H|[H|[H|[]]]]]; subst; split; reflexivity.
+  - intros x _. unfold idem_on. apply conv_toy_idem.
   - repeat constructor; cbn; intuition discriminate.
   - vm_compute. reflexivity.
   - vm_compute. reflexivity.
